@@ -379,6 +379,9 @@ def shapes(al, tier, excs, ok=None):
         ("var-builtin", lambda: pipe(var("len"), c())),
         ("attr", lambda: attr(al.call("content", [DICT([("a", S("b"))]), DICT([("z", S("b"))]), OBJ("attr"), NONE,
                                                     SEQ([S("a")])]), "a")),
+        ("dict-method", lambda: {"x": "skeys", "e": al.call("content", [DICT([("a", S("a")), ("keys", S("b"))]), DICT([("items", I(7))]),
+                                                                     DICT([]), NONE, SEQ([S("a")])])}),
+        ("dict-method-pipe", lambda: pipe({"x": "skeys", "e": al.call("content", [DICT([("keys", S("b"))]), NONE])}, c())),
         ("attr-pipe", lambda: pipe(attr(al.call("content", [DICT([("z", S("b"))]), OBJ("attr"), SEQ([S("a")])]), "a"), c())),
     ]
     for w in WRAPS:
@@ -501,6 +504,7 @@ def c07_family(tier, rnd):
         ["class"],
         [("class", {"q": "'", "v": 'say "hi"'}), ("ID", {"v": "i1", "sp": "  ", "eq": " = "})],
         ["checked", "class", ("title", {"q": '"', "v": "it's"})],
+        [("title", {"v": "R&amp;D 1 &lt; 2 &#39;q&#39;"}), ("class", {"q": "'", "v": "a&amp;b"})],
     ]
     named = ["class", "CLASS", "id", "checked", "title"]
     ndom = [NONE, DEFAULT, S(""), B(False), S("h")] if quick else \
@@ -603,6 +607,11 @@ def c08_family(tier, rnd):
             items = [Text("pre" + tail), Open(tag=tag, rep=(False, "x", al.call("repeat", [RANGE(3), RANGE(1), RANGE(0)])), sattr=[]),
                      Text("k", var("x")), CLOSE, Text("\npost")]
             progs.append(program(items, al.dom, fam="C08:place:%r:%s" % (tail, tag)))
+    for tag in ("el", "ns"):
+        al = Alloc(tier)
+        items = [Open(name="ul", sattr=[]), Text("\n  ", pipe(var("y"), const(S("a"))), "\n      "),
+                 Open(tag=tag, rep=(False, "x", al.call("repeat", [RANGE(3), RANGE(1)])), sattr=[]), Text("k", var("x")), CLOSE, Text("\n"), CLOSE]
+        progs.append(program(items, al.dom, fam="C08:place:after-interpolation:%s" % tag))
     # first child without preceding text, and directly after another element
     al = Alloc(tier)
     items = [Open(sattr=[]), Open(rep=(False, "x", al.call("repeat", [RANGE(2)])), sattr=[]), Text("k"), CLOSE,
@@ -708,6 +717,14 @@ def c09_family(tier, rnd):
         main = [Text("pre", *_P()), Open(name="ul", rep=(False, "x", al.call("repeat", [SEQ([S("a"), S("b")])])), sattr=[]),
                 Text("\n  ")] + use + [Text("r", *_P()), CLOSE, Text("post", *_P())]
         build(main, m, al, "P2:%s%s%s" % (int(ld), int(gd), int(rp)))
+    # P2g: the macro re-defines a global that exists already (defined by the caller, or by an earlier use)
+    for twice in (False, True):
+        al = Alloc(tier)
+        m = mk_macro(al, "m1", ["a"], global_def=True)
+        use = mk_use("m1", 1, [mk_fill("a", "a1")])
+        main = [Text("pre"), Open(name="span", define=[(True, "g", al.call("define", [S("a")]))], sattr=[]), Text("d", *_P()), CLOSE] + use + \
+            [Text("mid", *_P())] + (mk_use("m1", 1, [], tag="article") if twice else []) + [Text("post", *_P())]
+        build(main, m, al, "P2g:%s" % twice)
     # P3: a filler that uses another macro; fillers naming slots of the inner macro only
     for outer_fill in (["a"], ["a", "c"], ["c"]):
         al = Alloc(tier)
@@ -825,6 +842,15 @@ def c10_family(tier, rnd):
                 items += [Open(name="b", nm=nm, sattr=["class"] if n == 0 else [], **kw), Text("N%d" % n), CLOSE, Text(" and\n ")]
             items += [Text("end."), CLOSE, Text("post")]
             add(items, al, "T2:%s:%s" % ("+".join(combo), tid or "-"), "rewrite" if len(progs) % 2 else "identity")
+    # T2s: the named child sits inside a (non-named) element that may be skipped or repeated
+    for wrapper in ("cond", "repeat"):
+        for tid in ("", "mid"):
+            al = Alloc(tier)
+            kw = {"cond": al.call("cond", [B(True), B(False)])} if wrapper == "cond" else {"rep": (False, "x", al.call("repeat", [SEQ([S("a"), S("b")]), SEQ([])]))}
+            items = [Text("pre"), Open(name="ul", rep=(False, "y", al.call("repeat", [SEQ([S("a"), S("b")])])), sattr=[]),
+                     Open(name="p", tr=tid, sattr=[]), Text("Hello"), Open(name="em", sattr=[], **kw), Text(", "),
+                     Open(name="b", nm="who", sattr=[]), Text("N", var("y")), CLOSE, CLOSE, Text("!"), CLOSE, CLOSE, Text("post")]
+            add(items, al, "T2s:%s:%s" % (wrapper, tid or "-"), "rewrite")
     # T3: nested translations
     for inner_named in (False, True):
         for v in variants:
